@@ -64,6 +64,22 @@ Lemma link_runTasks_calls : C10_Gen.runTasks_calls =
   ["len"; "return"; "go:func"; "{"; "w.execute"; "threading.RunSafe"; "}"].
 Proof. reflexivity. Qed.
 
+(* Schedule: slot taken by the loop, given back by the goroutine's DEFERRED recover (so also after a panic);
+   RunSafe / GoSafe: every execute runs under a deferred recover; Recover runs its cleanups before recovering *)
+Lemma link_schedule_calls : C10_Gen.schedule_calls =
+  ["send:r.limitChan"; "go:func"; "{"; "defer:rescue.Recover"; "recv:r.limitChan"; "task"; "}"].
+Proof. reflexivity. Qed.
+
+Lemma link_runsafe_calls : C10_Gen.runsafe_calls = ["defer:rescue.Recover"; "fn"] /\ C10_Gen.gosafe_calls = ["go:RunSafe"].
+Proof. split; reflexivity. Qed.
+
+Lemma link_recover_calls : C10_Gen.recover_calls = ["cleanup"; "recover"; "logx.ErrorStack"].
+Proof. reflexivity. Qed.
+
+(* the TaskRunner model's limit for drainAll is the regenerated drainWorkers *)
+Lemma link_runner_limit : Z.to_nat C10_Gen.drainWorkers = 8.
+Proof. reflexivity. Qed.
+
 Lemma link_drain_calls : C10_Gen.drain_calls =
   ["threading.NewTaskRunner"; "slot.Front"; "e.Next"; "slot.Remove"; "fn"; "runner.Schedule"].
 Proof. reflexivity. Qed.
